@@ -99,13 +99,15 @@ func isPublic(fname string) bool {
 
 func getContextFromFilename(fname string) keystore.KeyContext {
 	if isHistoricalFilename(fname) {
-		fname = filepath.Dir(fname)
+		// rotated versions live in "<name>.old/<timestamp>" and are encrypted like the current one
+		fname = strings.TrimSuffix(filepath.Dir(fname), historyDirSuffix)
 	}
+	// the keystore encrypts the poison record keys with their whole file name as the context
 	if fname == PoisonKeyFilename {
 		return keystore.NewKeyContext(keystore.PurposePoisonRecordKeyPair, []byte(fname))
 	}
 	if fname == getSymmetricKeyName(PoisonKeyFilename) {
-		return keystore.NewKeyContext(keystore.PurposePoisonRecordSymmetricKey, []byte(fname[:len(fname)-len("_sym")]))
+		return keystore.NewKeyContext(keystore.PurposePoisonRecordSymmetricKey, []byte(fname))
 	}
 	fname = filepath.Base(fname)
 	if strings.HasSuffix(fname, ".old") {
